@@ -165,4 +165,8 @@ def refstring(fn):
 
 def is_tooled(fn):
     """Return whether a function has been tooled for Ptera."""
-    return isinstance(fn, types.FunctionType) and hasattr(fn, "__ptera_info__")
+    # (A function that was probed earlier keeps the attribute, set to None)
+    return (
+        isinstance(fn, types.FunctionType)
+        and getattr(fn, "__ptera_info__", None) is not None
+    )
